@@ -230,12 +230,25 @@ func cmdCheck(args []string) {
 	outRoot := fs.String("out", "", "output root for evidence, replays and work files (default: root)")
 	workers := fs.Int("workers", 16, "parallel workers")
 	scale := fs.Float64("scale", 1, "multiply case counts (development)")
+	jobsOverride := fs.String("jobs", os.Getenv("VERIF_JOBS"), "development: kind:n[,kind:n...] instead of the registered jobs")
 	fs.Parse(args)
 	if *outRoot == "" {
 		*outRoot = *root
 	}
 	start := time.Now()
-	jobs := jobsFor(*prop, *tier)
+	jobs := allJobsFor(*prop, *tier)
+	if *jobsOverride != "" {
+		jobs = nil
+		for _, part := range strings.Split(*jobsOverride, ",") {
+			i := strings.LastIndex(part, "=")
+			if i < 0 {
+				continue
+			}
+			var n int
+			fmt.Sscanf(part[i+1:], "%d", &n)
+			jobs = append(jobs, JobSpec{part[:i], n})
+		}
+	}
 	if len(jobs) == 0 {
 		fmt.Printf("INCONCLUSIVE property=%s reason=no-jobs-defined\n", *prop)
 		os.Exit(3)
@@ -417,7 +430,7 @@ func finish(prop, tier string, seed int64, root, outRoot string, jobs []JobSpec,
 		isKnown := false
 		for _, k := range known {
 			if k.Prop == prop && k.Rule == v.Rule && k.Class == v.Class {
-				fmt.Printf("KNOWN-FINDING: property=%s %s\n", prop, k.Text)
+				fmt.Printf("KNOWN-FINDING: %s\n", k.Text)
 				isKnown = true
 			}
 		}
